@@ -15,6 +15,8 @@ def tasks(tier, seed):
         ts += [{"kind": "rnd_dfa", "count": 500, "seed": seed * 50 + i, "maxk": 6} for i in range(3)]
         ts += [{"kind": "late_split_dfa", "count": 8, "seed": seed * 50 + i} for i in range(6)]
         ts += [{"kind": "counter_dfa", "count": 12, "seed": seed * 50 + i, "orders": 10} for i in range(4)]
+        # alphabets of 5-7 and 17 symbols (a Python set and its copy may iterate in different orders from 5 elements on)
+        ts += [{"kind": "rnd_dfa", "count": 40, "seed": seed * 50 + 40 + i, "maxk": 4, "alphabets": ["abcde", "abcdef", "abcdefg", "abcdefghijklmnopq"]} for i in range(2)]
     else:
         ts = gen.dfa_src_tasks(3, "ab", 16, pools=(0, 1, 2, 3, 4, 5, 6, 7, 8))
         ts += gen.dfa_src_tasks(4, "ab", 64, stride=41, pools=(0, 1, 2, 3, 4, 5, 6, 7, 8))
@@ -22,6 +24,7 @@ def tasks(tier, seed):
         ts += [{"kind": "rnd_dfa", "count": 2000, "seed": seed * 50 + i, "maxk": 7} for i in range(32)]
         ts += [{"kind": "late_split_dfa", "count": 20, "seed": seed * 50 + i} for i in range(16)]
         ts += [{"kind": "counter_dfa", "count": 40, "seed": seed * 50 + i, "orders": 40} for i in range(16)]
+        ts += [{"kind": "rnd_dfa", "count": 150, "seed": seed * 50 + 40 + i, "maxk": 5, "alphabets": ["abcde", "abcdef", "abcdefg", "abcdefghijklmnopq"]} for i in range(8)]
     return gen.spread(ts, hs)
 
 
